@@ -89,6 +89,13 @@ func c12(r *report.Run) {
 		}
 	}
 	rec(nil)
+	// strings of one or two punctuation characters (they spell tokens the parser probes for): raw spelling, parser contexts
+	for _, a := range "()[]{}:#.,?!" {
+		strs = append(strs, []rune{a})
+		for _, b := range "()[]{}:#.,?" {
+			strs = append(strs, []rune{a, b})
+		}
+	}
 	var strCases int64
 	for _, q := range []rune{'"', '\''} {
 		q := q
@@ -140,6 +147,52 @@ func c12(r *report.Run) {
 					kind = "value"
 					got = strconv.QuoteToASCII(toks[0].Value)
 				}
+				if kind == "" && len(rs) <= 2 {
+					// the same literal through the parser: one string node with that value, alone and in the positions
+					// where the parser looks for punctuation
+					for _, ctx := range []string{"%s", "[%s]", "{a: %s}", "f(%s)", "a[%s]", "b ? %s : %s"} {
+						psrc := strings.Replace(ctx, "%s", src, -1)
+						root, perr := parseSafe(psrc)
+						atomic.AddInt64(&evals, 1)
+						n := 0
+						bad := perr != nil
+						if !bad {
+							var walk func(x ast.Node)
+							walk = func(x ast.Node) {
+								switch y := x.(type) {
+								case *ast.StringNode:
+									n++
+									if y.Value != want {
+										bad = true
+									}
+								case *ast.ArrayNode:
+									for _, k := range y.Nodes {
+										walk(k)
+									}
+								case *ast.MapNode:
+									for _, k := range y.Pairs {
+										walk(k.(*ast.PairNode).Value)
+									}
+								case *ast.FunctionNode:
+									for _, k := range y.Arguments {
+										walk(k)
+									}
+								case *ast.IndexNode:
+									walk(y.Index)
+								case *ast.ConditionalNode:
+									walk(y.Exp1)
+									walk(y.Exp2)
+								}
+							}
+							walk(root)
+							bad = bad || n != strings.Count(ctx, "%s")
+						}
+						if bad {
+							kind, got = "parsed-differently", fmt.Sprintf("in %q: %v", ctx, perr)
+							break
+						}
+					}
+				}
 				if kind != "" {
 					// witness: the spelling of the first rune that differs, when it can be isolated
 					r.Report(report.Violation{Sub: "string", Kind: kind, Witness: c12StringWitness(rs, sp, c, q), Order: int64(i)*1000 + int64(c),
@@ -182,7 +235,7 @@ func c12(r *report.Run) {
 		dec := strconv.FormatInt(v, 10)
 		hexl := "0x" + strconv.FormatInt(v, 16)
 		hexu := "0x" + strings.ToUpper(strconv.FormatInt(v, 16))
-		sps := []string{dec, hexl, hexu}
+		sps := []string{dec, hexl, hexu, "0" + dec, "00" + dec} // a decimal literal stays decimal behind leading zeros
 		if len(dec) <= 6 {
 			for pos := 1; pos < len(dec); pos++ {
 				sps = append(sps, dec[:pos]+"_"+dec[pos:])
@@ -209,6 +262,9 @@ func c12(r *report.Run) {
 			}
 			if kind != "" {
 				fam := "decimal"
+				if len(src) > 1 && src[0] == '0' && src[1] != 'x' {
+					fam = "decimal with leading zero"
+				}
 				if strings.HasPrefix(src, "0x") {
 					fam = "hex"
 					if strings.ContainsAny(src, "eE") {
@@ -366,7 +422,7 @@ var c12PosTokens = []struct {
 	{"(", lexer.Bracket, "(", true}, {")", lexer.Bracket, ")", true}, {"[", lexer.Bracket, "[", true}, {"]", lexer.Bracket, "]", true}, {"{", lexer.Bracket, "{", true}, {"}", lexer.Bracket, "}", true},
 }
 
-var c12WS = []string{" ", "", "\t", "\n", " \n  "}
+var c12WS = []string{" ", "", "\t", "\n", " \n  ", "\r", "\r\n", "\u00a0"}
 
 func c12Positions(r *report.Run, evals *int64, orderBase int64) int64 {
 	nt := len(c12PosTokens)
